@@ -234,7 +234,9 @@ def run_C04(tier, seed):
     res.append(stages.trace_stage("C04", "dep-prove", sc3, seed, module="TraceProve", consts={"Strict": "FALSE", "CheckArith": "FALSE", "CrossFresh": "FALSE"}, calls="prove", arith=False, per_file=40))
     # RP: honest proofs re-verified under a perturbed context are rejected
     res.append(stages.api_stage("C04", "bind", tier, seed))
-    res.append(stages.api_stage("C04", "batch", tier, seed, groups=("fm",), filter_fn=lambda s: dis(s) or cache_only(s)))
+    # ... and batches in which a member is handed in with another context than it was made in (also as the repetition of its neighbour)
+    other_ctx = lambda s: any(m["v"]["label"] != m["label"] for m in s["sc"]["members"])
+    res.append(stages.api_stage("C04", "batch", tier, seed, groups=("fm",), filter_fn=lambda s: dis(s) or cache_only(s) or other_ctx(s)))
     # beyond the chunk limit every member is still verified in ITS context (members made in different contexts, at 256-scale)
     ctxs = lambda s: len({m["label"] for m in s["sc"]["members"]}) >= 2 and s["sc"]["skew"] == [0, 0, 0]
     big = stages.api_stage("C04", "batch", tier, seed, groups=("rist",), scale="2:256", scale_min=0, limit=25 if q else 400, filter_fn=ctxs)
